@@ -79,7 +79,7 @@ impl Check for C17 {
         let body_len = if g.chance(60) { *g.pick(&[0u64, 1, 5, 100, 1024, 9_000, 70_000]) } else { g.range(0, 3000) };
         let rest_len = if g.chance(40) { g.range(1, 2000) } else { 0 };
         let nsplit = g.range(0, 5);
-        json!({"net": net, "host": host, "is_v6": is_v6, "is_name": is_name, "form": form, "https_abs": https_abs, "explicit_port": explicit_port, "port": port, "method": method, "path": path,
+        json!({"net": net, "host": host, "is_v6": is_v6, "is_name": is_name, "form": form, "host_disagrees": if g.chance(25) { *g.pick(&["other-host", "port-omitted", "other-port"]) } else { "" }, "https_abs": https_abs, "explicit_port": explicit_port, "port": port, "method": method, "path": path,
             "version": *g.pick(&["HTTP/1.1", "HTTP/1.1", "HTTP/1.0"]), "headers": headers, "size_target": size_target, "host_case": host_case, "host_pos": host_pos,
             "host_header": form != "absolute" || g.chance(80), "body_with_header": body_len, "body_later": rest_len,
             "split_seeds": (0..nsplit).map(|_| g.next() % 1_000_000).collect::<Vec<_>>(), "gap_us": *g.pick(&[0u64, 0, 500, 20_000]),
@@ -115,7 +115,16 @@ impl Check for C17 {
             };
             let connect_authority = target_line.clone();
             let mut headers: Vec<String> = plan["headers"].as_array().into_iter().flatten().filter_map(|h| h.as_str().map(|s| s.to_string())).collect();
-            let host_line = format!("{}: {}", plan["host_case"].as_str().unwrap_or("Host"), if form == "connect" { connect_authority.clone() } else { authority.clone() });
+            // absolute form: the URI names the destination; a Host header that says something else (another
+            // host, or the same host without its non-default port) must not win
+            let disagree = if form == "absolute" { plan["host_disagrees"].as_str().unwrap_or("") } else { "" };
+            let host_value = match disagree {
+                "other-host" => "decoy.invalid:81".to_string(),
+                "port-omitted" if explicit => hostspec.clone(),
+                "other-port" => format!("{}:{}", hostspec, if port == 8081 { 8082 } else { 8081 }),
+                _ => if form == "connect" { connect_authority.clone() } else { authority.clone() },
+            };
+            let host_line = format!("{}: {}", plan["host_case"].as_str().unwrap_or("Host"), host_value);
             let has_host = plan["host_header"].as_bool().unwrap_or(true);
             if has_host {
                 let pos = std::cmp::min(plan["host_pos"].as_u64().unwrap_or(0) as usize, headers.len());
@@ -330,7 +339,7 @@ impl Check for C17 {
         out
     }
     fn rule(&self) -> &'static str {
-        "one case = one well-formed proxy request: CONNECT authority / absolute-form (http, sometimes https) / origin-form + Host; methods incl. lower-case and extension methods; host as name / IPv4 / bracketed IPv6, with or without an explicit port (boundary and random ports, scheme defaults); 0-8 extra header lines in seeded order with long values, Host header spelled Host/host/HOST/hOsT at a seeded position (sometimes absent for absolute-form); header blocks padded to sizes around 1 KiB, 2 KiB and the 64 KiB limit; 0-70000 body bytes arriving in the same segments as the header or just after it plus more bytes 700 ms later (early tunnel bytes for CONNECT); seeded segmentation with delays; target accepts or refuses; oracle = independent reference for the authority, the rewritten request the origin must receive, the status line and the bytes relayed both ways; every case is non-trivial; distinct = distinct (plan hash, poll-order fingerprint)"
+        "(absolute-form requests: in 25% of the cases the Host header disagrees with the URI — another host, the same host without its non-default port, another port — and the URI must win) one case = one well-formed proxy request: CONNECT authority / absolute-form (http, sometimes https) / origin-form + Host; methods incl. lower-case and extension methods; host as name / IPv4 / bracketed IPv6, with or without an explicit port (boundary and random ports, scheme defaults); 0-8 extra header lines in seeded order with long values, Host header spelled Host/host/HOST/hOsT at a seeded position (sometimes absent for absolute-form); header blocks padded to sizes around 1 KiB, 2 KiB and the 64 KiB limit; 0-70000 body bytes arriving in the same segments as the header or just after it plus more bytes 700 ms later (early tunnel bytes for CONNECT); seeded segmentation with delays; target accepts or refuses; oracle = independent reference for the authority, the rewritten request the origin must receive, the status line and the bytes relayed both ways; every case is non-trivial; distinct = distinct (plan hash, poll-order fingerprint)"
     }
     fn real_components(&self) -> Vec<&'static str> {
         vec!["start_http_proxy_server / handle_http_proxy_connection / read_http_header / parse_http_request / determine_target / split_host_port / build_forward_request", "Client::create_proxy_stream, Session, Server, TcpProxyHandler, rustls (the tunnel behind the front-end)"]
